@@ -235,3 +235,30 @@ Fixpoint core_after (s : core_st) (es : list elem_in) : core_st :=
   | [] => s
   | e :: es' => core_after (core_next s e) es'
   end.
+
+(* ------------------------------------------------------------------ the Output register on its own *)
+
+(* Peripheral.Output(pin_count) instantiated by itself: the register's element is driven directly and every
+   field's set / clr inputs are free (inside the peripheral they come from SetClr; there, the multiplexer never
+   raises SetClr's and Output's write strobes in the same cycle, so this is the only place where the priority
+   of Output._FieldAction's If / Elif shows).  Bit k of q_set / q_clr = f.pin[k].set / .clr. *)
+Record oreg_in := { q_wstb : bool; q_wdata : Z; q_set : Z; q_clr : Z }.
+
+Fixpoint oreg_next_from (k : nat) (s : list bool) (i : oreg_in) : list bool :=
+  match s with
+  | [] => []
+  | b :: s' =>
+      outbit_next b (Z.testbit (q_set i) (Z.of_nat k)) (Z.testbit (q_clr i) (Z.of_nat k))
+                  (q_wstb i) (Z.testbit (q_wdata i) (Z.of_nat k))
+        :: oreg_next_from (S k) s' i
+  end.
+Definition oreg_next (s : list bool) (i : oreg_in) : list bool := oreg_next_from 0 s i.
+
+(* element.r_data (also each field's `data`) *)
+Definition oreg_val (s : list bool) : Z := pack 1 (map Z.b2z s).
+
+Fixpoint oreg_run (s : list bool) (is : list oreg_in) : list (Z * list bool) :=
+  match is with
+  | [] => []
+  | i :: is' => (oreg_val s, s) :: oreg_run (oreg_next s i) is'
+  end.
